@@ -83,8 +83,34 @@ func vfH_c06_cycle() {
 		_, err := Marshal(m)
 		vfKnownEnd()
 		vfAssert(err != nil, "map-cycle-is-an-error")
+	case 3:
+		// pointer cycle whose pointer lives in a map value (a fresh temporary slot on every lap)
+		n := &jCycM{}
+		n.Kids = map[string]*jCycM{"self": n}
+		_, err := Marshal(n)
+		vfAssert(err != nil, "pointer-cycle-through-map-value-is-an-error")
+	case 4:
+		// pointer cycle whose pointer lives in a slice element
+		n := &jCycS{}
+		n.Kids = []*jCycS{n}
+		_, err := Marshal(n)
+		vfAssert(err != nil, "pointer-cycle-through-slice-element-is-an-error")
+	case 5:
+		// two-node pointer cycle through struct fields, entered by value
+		a, b := &jCycP{V: 1}, &jCycP{V: 2}
+		a.Next, b.Next = b, a
+		_, err := Marshal(*a)
+		vfAssert(err != nil, "two-node-pointer-cycle-is-an-error")
 	}
 	vfCover("done")
+}
+
+type jCycM struct {
+	Kids map[string]*jCycM
+}
+
+type jCycS struct {
+	Kids []*jCycS
 }
 
 type jHeader map[string][]string
